@@ -53,12 +53,40 @@ def long_roundtrip_failure(kind, text):
     return None
 
 
+HISTORY_TEXTS = ['select a, b from t where x = 1', 'insert into t (a) values (1); select 2', 'select f(a, (b + 1)) from t']
+
+
+def history_failures():
+    """parse() of a text gives a tree that reproduces the text also when the SAME text was parsed before and the tree
+    handed out then was edited in place (trees are mutable; a result shared between calls shows here)"""
+    import sqlparse
+    from sqlparse.filters import StripWhitespaceFilter
+    out = []
+    for t in HISTORY_TEXTS:
+        try:
+            first = sqlparse.parse(t)
+            for st in first:
+                StripWhitespaceFilter().process(st)
+                for leaf in st.flatten():
+                    if leaf.ttype is sqlparse.tokens.Name:
+                        leaf.value = leaf.value + '_edited'
+            again = sqlparse.parse(t)
+            got = ''.join(str(st) for st in again)
+        except Exception as e:  # noqa
+            got = 'exception ' + type(e).__name__
+        if got != t:
+            out.append({'input': [ord(c) for c in t], 'history': 'parse(text); edit the returned tree in place; parse(text)',
+                        'observed': 'the second parse() of the same text gives %r' % got[:200]})
+    return out
+
+
 def run(ctx):
     texts, dist = common.gen_texts(ctx, ctx.n(2500, 40000))
     texts = common.corpus('parse') + texts
     res = {'disagreements': [], 'failures': []}
     import gens as _gens
     res['failures'] += common.threshold_failures('C02', ctx.quick())
+    res['failures'] += history_failures()[:1]
     for kind, text, span in _gens.long_cases(ctx.quick()):
         if kind in ('long-ws',):
             continue                      # tens of thousands of whitespace tokens: the lexer-level checks cover it
@@ -103,11 +131,14 @@ def run_oracle_only(ctx):
 
 
 def search(ctx, hints):
+    h = history_failures()
+    if h:
+        return {'failures': h[:1], 'tried': len(HISTORY_TEXTS)}
     return common.generic_search(ctx, hints, oracle)
 
 
 def shrink(f):
-    if f and f.get('long_input'):
+    if f and (f.get('long_input') or f.get('history')):
         return f
     return common.shrink_failure(f, oracle)
 
@@ -117,6 +148,9 @@ def replay(payload):
     if _f.get('threshold_input'):
         return common.threshold_replay('C02', _f)
     f = payload.get('failure')
+    if f and f.get('history'):
+        g = [x for x in history_failures() if x['input'] == f.get('input')]
+        return {'fails': bool(g), 'observed': g[:1]}
     if f and f.get('long_input'):
         lc = common.long_case_text(f)
         if lc:
